@@ -312,7 +312,7 @@ func genJSON(t *tape.Tape, o GenOpts) *World {
 				reps = 2
 			}
 			for k := 0; k < reps; k++ {
-				if i == sh.IntIdx && numAsNumber && isDigits(v) {
+				if i == sh.IntIdx && numAsNumber != r.OtherType && isDigits(v) {
 					parts = append(parts, jsonStr(fn[i])+":"+v)
 				} else {
 					parts = append(parts, jsonStr(fn[i])+":"+jsonStr(v))
@@ -355,6 +355,9 @@ func genJSON(t *tape.Tape, o GenOpts) *World {
 	finish(w, enc, bom)
 	return w
 }
+
+// IsDigits: s is a non-empty run of ASCII digits.
+func IsDigits(s string) bool { return isDigits(s) }
 
 func isDigits(s string) bool {
 	if s == "" {
